@@ -317,15 +317,21 @@ class NestedExtensionArray(ExtensionArray):
         if not pa.compute.any(pa_mask, min_count=0).as_py():
             return
 
-        # Try to convert to struct_scalar first, if it fails, convert to array
-        try:
-            scalar = self._box_pa_scalar(value, pa_type=self._pyarrow_dtype)
-        except (ValueError, TypeError):
-            # Copy will happen later in replace_with_mask() anyway
+        # A sequence of rows is converted to an array, anything else (a table, a dict, NA, a struct
+        # scalar) is one row. pyarrow would happily read an empty sequence, or a sequence of empty
+        # tables, as ONE struct whose fields are null, so do not let it guess.
+        if isinstance(value, (list, tuple, np.ndarray, pd.Series, ExtensionArray, pa.Array, pa.ChunkedArray)):
             value = self._box_pa_array(value, pa_type=self._pyarrow_dtype)
         else:
-            # Our replace_with_mask implementation doesn't work with scalars
-            value = pa.array([scalar] * pa.compute.sum(pa_mask).as_py())
+            # Try to convert to struct_scalar first, if it fails, convert to array
+            try:
+                scalar = self._box_pa_scalar(value, pa_type=self._pyarrow_dtype)
+            except (ValueError, TypeError):
+                # Copy will happen later in replace_with_mask() anyway
+                value = self._box_pa_array(value, pa_type=self._pyarrow_dtype)
+            else:
+                # Our replace_with_mask implementation doesn't work with scalars
+                value = pa.array([scalar] * pa.compute.sum(pa_mask).as_py())
 
         # Refuse ragged values: in each row all fields must have the same number of elements
         self._validate(value if isinstance(value, pa.ChunkedArray) else pa.chunked_array([value]))
@@ -642,6 +648,9 @@ class NestedExtensionArray(ExtensionArray):
             pa_array = value
         else:
             try:
+                # pyarrow reads a table without rows as a struct of null fields: box tables one by one
+                if any(isinstance(v, pd.DataFrame) for v in value):
+                    raise TypeError("a sequence holding tables is converted element by element")
                 pa_array = pa.array(value, type=pa_type)
             except (ValueError, TypeError, KeyError):
                 scalars: list[pa.Scalar] = []
